@@ -226,6 +226,40 @@ def run_case(args):
     return {"vio": vio, "nops": nops}
 
 
+def path_reuse_case(args):
+    """The same file NAME is used for two different process tensors one after the other (overwrite=True): every import
+    must show the content that is on disk now."""
+    ia, ib = args
+    specs = pt_alphabet()
+    a, b = build(specs[ia]), build(specs[ib])
+    tmp = tempfile.mkdtemp(prefix="c16p_")
+    fn = os.path.join(tmp, "same_name.hdf5")
+    vio = []
+    try:
+        a.export(fn)
+        for typ in ("file", "simple"):
+            p_ = oq.import_process_tensor(fn, typ)
+            [p_.get_mpo_tensor(k) for k in range(len(p_))]
+            [p_.get_mpo_tensor(k, transformed=False) for k in range(len(p_))]
+            [p_.get_cap_tensor(k) for k in range(len(p_) + 1)]
+            if typ == "file":
+                p_.close()
+        b.export(fn, overwrite=True)
+        for typ in ("file", "simple"):
+            p_ = oq.import_process_tensor(fn, typ)
+            sig = compare_pt(b, p_)
+            if sig:
+                vio.append((f"path-reuse|import-{typ}|{sig}", f"{specs[ia]} then {specs[ib]} exported to the same file name: "
+                                                           f"the import shows {sig} not of the file's current content"))
+            if typ == "file":
+                p_.close()
+    except Exception as ex:  # noqa
+        vio.append((f"path-reuse|exception:{type(ex).__name__}", str(ex)[:150]))
+    finally:
+        shutil.rmtree(tmp, ignore_errors=True)
+    return {"vio": vio}
+
+
 def filebacked_case(kind):
     """PtTempo writing directly to a file vs the in-memory computation (gauge-invariant comparison)."""
     op = {"diag": 0.5 * M.SZ, "nondiag": 0.5 * M.SX, "nondiag-complex": 0.5 * M.SY + 0.2 * M.SX}[kind]
@@ -275,6 +309,13 @@ def run(tier, seed):
         trans += r["nops"]
         for cls, what in r["vio"]:
             rep.add(Violation(cls, what, {"part": "hist", "spec": list(s), "hist": list(h)}))
+    nspec = len(specs)
+    pj = [(i, j) for i in range(0, nspec, 3) for j in range(1, nspec, 4) if i != j]
+    pres = pmap(path_reuse_case, pj, seed=seed)
+    for j, r in zip(pj, pres):
+        trans += 6
+        for cls, what in r["vio"]:
+            rep.add(Violation(cls, what, {"part": "pathreuse", "args": list(j)}))
     kinds = ["diag", "nondiag", "nondiag-complex"]
     fres = pmap(filebacked_case, kinds, chunksize=1, seed=seed)
     for k, r in zip(kinds, fres):
@@ -299,6 +340,9 @@ def run(tier, seed):
 
 
 def replay(rp):
+    if rp["part"] == "pathreuse":
+        r = path_reuse_case(tuple(rp["args"]))
+        return {"obs": r["vio"], "violation": r["vio"][0][0] if r["vio"] else None}
     if rp["part"] == "hist":
         s = rp["spec"]
         r = run_case((tuple(s), tuple(rp["hist"])))
